@@ -54,6 +54,7 @@ type envOpts struct {
 	Server         bool   `json:"server"` // serve through the real http.Server over in-memory pipes
 	BudgetPercent  int    `json:"budget_percent"`
 	Plain          bool   `json:"plain"` // configure through the update API instead of command-line overwrites
+	CleanupIntervalS int  `json:"cleanup_interval_s"`
 }
 
 type penv struct {
@@ -129,7 +130,11 @@ func newEnv(o envOpts) *penv {
 	cfg.Proxy.CachePolicy.DefaultMaxAge.Overwrite(duration.Duration(time.Duration(o.DefaultMaxAgeS) * time.Second))
 	cfg.Cache.LockShards.Overwrite(o.Shards)
 	cfg.Cache.MaxCacheSize.Overwrite(bytesize.ByteSize(o.Limit))
-	cfg.Cache.CleanupInterval.Overwrite(duration.Duration(100000 * time.Hour))
+	if o.CleanupIntervalS > 0 {
+		cfg.Cache.CleanupInterval.Overwrite(duration.Duration(time.Duration(o.CleanupIntervalS) * time.Second))
+	} else {
+		cfg.Cache.CleanupInterval.Overwrite(duration.Duration(100000 * time.Hour))
+	}
 	cfg.Cache.Memory.MemoryBudgetPercent.Overwrite(o.BudgetPercent)
 	e.dir = filepath.Join(scratchRoot, "pc")
 	cfg.Cache.File.Dir.Overwrite(e.dir)
